@@ -548,7 +548,7 @@ func cachedCase(k int) {
 
 func main() {
 	run = vx.Begin("C03", "exploration",
-		"(a) seeding sessions (memstore, some pieces deliberately missing) over a configuration lattice ReadCacheBlockSize {7,1000,4096,16384,20000,131072} x ReadCacheSize {0,1,3 blocks,large} x TTL {1ms,20ms,1min} x MaxRequestsIn {1,3,250} x AllowedFastSet {0,3,10}; 1-3 scripted leechers (plain/RC4, fast/non-fast) send 20-140 requests each per connection: aligned, unaligned, crossing cache-block boundaries, piece tails, single bytes, repeats, cancels, requests while choked, plus one request that must never be served (bad index, zero length, >16 KiB, 32-bit wrap, out of bounds); every piece frame is matched against outstanding requests, truth, advertised pieces and choke/allowed-fast state; (b) cachedpiece.ReadAt with 8 concurrent readers on caches of 0/1/3 blocks with 1 ms expiry. distinct = distinct (configuration, layout, answer counts)")
+		"(a) seeding sessions (memstore, some pieces deliberately missing) over a configuration lattice ReadCacheBlockSize {7,1000,4096,16384,20000,131072} x ReadCacheSize {0,1,3 blocks,large} x TTL {1ms,20ms,1min} x MaxRequestsIn {1,3,250} x AllowedFastSet {0,3,10}; 1-3 scripted leechers (plain/RC4, fast/non-fast) send 20-140 requests each per connection: aligned, unaligned, crossing cache-block boundaries, piece tails, single bytes, repeats, cancels, requests while choked, plus one request that must never be served (bad index, zero length, >16 KiB, 32-bit wrap, out of bounds); every piece frame is matched against outstanding requests, truth, advertised pieces and choke/allowed-fast state; (b) cachedpiece.ReadAt with 8 concurrent readers on caches of 0/1/3 blocks with 1 ms expiry; (c) 2-41 pieces of 2-25 cache blocks each sharing one warm cache, read in order and then at random by 4 readers. distinct = distinct (configuration, layout, answer counts)")
 	logger.Disable()
 	vx.StartCanary()
 	switch vx.ChildRole() {
@@ -570,6 +570,9 @@ func main() {
 				break
 			}
 			cachedCase(k)
+			if k%4 == 0 {
+				cachedMultiCase(k)
+			}
 		}
 		run.Finish(0)
 	}
@@ -592,8 +595,11 @@ func main() {
 					if !res.Crashed && !res.TimedOut {
 						return
 					}
-					var k int
+					k := lo
 					fmt.Sscanf(res.OpenCase, prefix+"%d", &k)
+					if k < lo {
+						k = lo // never go backwards: an unparsable case id must not restart the range
+					}
 					if res.OpenCase == "" {
 						run.Inconclusive("child ended abnormally outside a case: " + res.PanicText)
 						return
